@@ -128,6 +128,7 @@ func (p *Parser) Parse(buf []byte, args ...any) (any, error) {
 		p.starts = p.starts[:0]
 	}
 	p.result = nil
+	p.plus = false
 	p.noff = -1
 	p.line = 1
 	p.mode = valueMap
@@ -196,6 +197,7 @@ func (p *Parser) ParseReader(r io.Reader, args ...any) (data any, err error) {
 		p.starts = p.starts[:0]
 	}
 	p.result = nil
+	p.plus = false
 	p.noff = -1
 	p.line = 1
 	p.mi = 0
@@ -528,6 +530,9 @@ func (p *Parser) parseBuffer(buf []byte, last bool) (err error) {
 			}
 			off += i
 		case valPlus:
+			if !p.plusAllowed() {
+				return p.newError(off, "unexpected character '%c'", b)
+			}
 			p.mode = plusMap
 			// Store additional state (plus) to be used later in addString()
 			// instead of creating another set of modes for this semi-rare
@@ -703,6 +708,25 @@ func (p *Parser) parseBuffer(buf []byte, last bool) (err error) {
 		}
 	}
 	return nil
+}
+
+// plusAllowed returns true if the most recently added value is a string that
+// a following string can be appended to.
+func (p *Parser) plusAllowed() bool {
+	if len(p.stack) == 0 {
+		return false
+	}
+	top := p.stack[len(p.stack)-1]
+	if 0 < len(p.starts) && p.starts[len(p.starts)-1] == -1 { // object
+		obj, _ := top.(map[string]any)
+		if obj == nil { // a key is waiting for its value
+			return false
+		}
+		top = obj[string(p.lastKey)]
+	}
+	_, ok := top.(string)
+
+	return ok
 }
 
 // only for non-string
